@@ -29,7 +29,8 @@ def coq_ty(t):
         return "N"
     return {"usize": "nat", "bool": "bool", "slice": "sl", "arr": "list N", "unit": "unit",
             "optu8": "option N", "optarr": "option (list N)", "optslice": "option sl",
-            "optusize": "option nat", "res_usize": "rval nat", "optn": "option N"}[t]
+            "optusize": "option nat", "res_usize": "rval nat", "optn": "option N",
+            "slots": "list slot"}[t]
 
 
 def default_of(t):
@@ -37,7 +38,7 @@ def default_of(t):
         return "0%N"
     return {"usize": "O", "bool": "false", "slice": "(Ext [])", "arr": "[]", "unit": "tt",
             "optu8": "None", "optarr": "None", "optslice": "None", "optusize": "None",
-            "res_usize": "RPartial", "optn": "None"}[t]
+            "res_usize": "RPartial", "optn": "None", "slots": "[]"}[t]
 
 
 def is_int(t):
@@ -72,6 +73,7 @@ class FnTr:
         self.nlab = 0
         self.fresh = 0
         self.calls = set()
+        self.lit_ty = ["int"]
         if self_fields:
             for f, ty in self_fields:
                 self.muts.append(("self_" + f, ty))
@@ -172,6 +174,15 @@ class FnTr:
                 return self.pure(e[2])
             return None
         if k == "ref":
+            if e[2][0] == "index" and e[2][2][0] == "range" and not e[2][2][3]:
+                base, lo, hi = self.pure(e[2][1]), self.pure(e[2][2][1]), self.pure(e[2][2][2])
+                if base is None or lo is None or hi is None:
+                    return None
+                if base[1] != "slice" or lo[0] != "0":
+                    raise TranslationError("slice index shape")
+                h = self.fixlit(hi[0], hi[1], "usize")
+                return ("(sl_prefix %s %s)" % (base[0], h), "slice",
+                        base[2] + hi[2] + ["IDX:(Nat.leb %s (length (sl_bytes %s)))" % (h, base[0])])
             return self.pure(e[2])
         if k == "cast":
             p = self.pure(e[1])
@@ -237,6 +248,21 @@ class FnTr:
                 # fits in usize because the buffer exists (stated in DESIGN.md)
                 return (term, ty, g)
             raise TranslationError("operator " + op)
+        if k == "mcall" and e[2] == "rposition" and e[1][0] == "mcall" and e[1][2] == "iter" and len(e[3]) == 1 \
+                and e[3][0][0] == "closure":
+            base = self.pure(e[1][1])
+            clo = e[3][0]
+            if base is None or base[1] != "slice" or len(clo[1]) != 1 or clo[1][0][0] != "pbind":
+                raise TranslationError("rposition shape")
+            v = cid(clo[1][0][1])
+            self.scopes.append({clo[1][0][1]: ("imm", v, "u8")})
+            try:
+                body = self.pure(clo[2])
+            finally:
+                self.scopes.pop()
+            if body is None or body[2]:
+                raise TranslationError("rposition closure")
+            return ("(rposition (fun %s => %s) (sl_bytes %s))" % (v, body[0], base[0]), "optusize", base[2])
         if k == "mcall":
             # (lo..=hi).contains(&b)
             if e[2] == "contains" and e[1][0] in ("paren", "range"):
@@ -262,6 +288,15 @@ class FnTr:
                 if p is None:
                     return None
                 return ("(%s E %s)" % (self.g.class_preds[f], p[0]), "bool", p[2])
+            if f == "Err" and e[2][0][0] == "path":
+                return ("(RErr %s)" % self.g.err_name(e[2][0]), "res_usize", [])
+            if f == "Ok" and e[2][0][0] == "call" and e[2][0][1] == ("path", "Status::Complete"):
+                p = self.pure(e[2][0][2][0])
+                if p is None:
+                    return None
+                if p[1] != "usize":
+                    raise TranslationError("Ok(Status::Complete(%s)) as a value" % p[1])
+                return ("(RComplete %s)" % p[0], "res_usize", p[2])
             if f == "Some":
                 p = self.pure(e[2][0])
                 if p is None:
@@ -351,6 +386,8 @@ class FnTr:
         """code computing e then continuing with k(term, ty); k is RET for `iret`"""
         def cont(term, ty):
             if k is RET:
+                if ty == "lit":
+                    term = nlit(int(term), self.lit_ty[-1])
                 pre, (t,) = self.resolve(term)
                 return pre + "iret %s" % t
             return k(term, ty)
@@ -359,18 +396,19 @@ class FnTr:
             term, ty, guards = p
             if guards:
                 pre, gs = self.resolve(*guards)
-                return pre + "iguard (%s) ;;~ " % " && ".join(gs) + cont(term, ty)
+                ar = [g for g in gs if not g.startswith("IDX:")]
+                ix = [g[4:] for g in gs if g.startswith("IDX:")]
+                code = pre
+                if ar:
+                    code += "iguard (%s) ;;~ " % " && ".join(ar)
+                if ix:
+                    code += "iguard_idx (%s) ;;~ " % " && ".join(ix)
+                return code + cont(term, ty)
             return cont(term, ty)
         kd = e[0]
         if kd == "paren":
             return self.ev(e[1], k)
         if kd == "mexp":
-            return self.ev(e[2], k)
-        if kd == "cast":
-            return self.ev(e[1], lambda t, ty: cont(*self._cast(t, ty, e[2])))
-        if kd in ("ref",):
-            return self.ev(e[2], k)
-        if kd == "unop" and e[1] == "*":
             return self.ev(e[2], k)
         bp = self.bytes_prim(e)
         if bp is not None:
@@ -379,6 +417,12 @@ class FnTr:
                 return "ilift %s ;;~ " % term + cont("tt", "unit")
             x = self.gensym()
             return "%s <~ ilift %s ;; " % (x, term) + cont(x, ty)
+        if kd == "cast":
+            return self.ev(e[1], lambda t, ty: cont(*self._cast(t, ty, e[2])))
+        if kd in ("ref",):
+            return self.ev(e[2], k)
+        if kd == "unop" and e[1] == "*":
+            return self.ev(e[2], k)
         if kd == "call" and e[1][0] == "path":
             f = e[1][1]
             if f in ("str::from_utf8_unchecked", "u64::from_ne_bytes", "str::from_utf8", "Some") or f in self.g.class_preds:
@@ -573,8 +617,13 @@ class FnTr:
             return self.ev(init, k)
         if init is None:
             raise TranslationError("let without initialiser")
+        forced = self.g.let_types.get((self.name, name))
 
         def k(t, ty):
+            if forced is not None and ty in ("lit", "int"):
+                if ty == "lit":
+                    t = nlit(int(t), forced)
+                ty = forced
             if ty == "lit":
                 ty = "int"
                 t = nlit(int(t), ty)
@@ -589,6 +638,12 @@ class FnTr:
             pre, (t,) = self.resolve(t)
             self.scopes[-1][name] = ("imm", cn, ty)
             return pre + "let %s := %s in " % (cn, t) + nxt()
+        if forced is not None:
+            self.lit_ty.append(forced)
+            try:
+                return self.ev(init, k)
+            finally:
+                self.lit_ty.pop()
         return self.ev(init, k)
 
     def assign(self, s, nxt):
@@ -689,7 +744,13 @@ class FnTr:
                 return "unit"
             for br in (e[2], e[3]):
                 if not self.diverges(br):
-                    return self.ty_of(br)
+                    self.scopes.append({})
+                    try:
+                        if e[1][0] == "letcond" and br is e[2]:
+                            self.bind_pattern_types(e[1][1], e[1][2])
+                        return self.ty_of(br)
+                    finally:
+                        self.scopes.pop()
             return "unit"
         if k == "match":
             sty = None
@@ -722,17 +783,22 @@ class FnTr:
             return e[2]
         raise TranslationError("%s: cannot type %s" % (self.name, repr(e)[:100]))
 
-    def _has_break_value(self, e):
-        if not isinstance(e, tuple):
-            return False
-        if e and e[0] == "break" and e[2] is not None:
-            return True
-        for x in e:
-            if isinstance(x, tuple) and self._has_break_value(x):
-                return True
-            if isinstance(x, list) and any(isinstance(y, tuple) and self._has_break_value(y) for y in x):
-                return True
-        return False
+    def _has_break_value(self, loop):
+        """does the loop node have a `break <value>` that targets it?"""
+        label = loop[1]
+
+        def go(e, inner_ok):
+            if isinstance(e, list):
+                return any(go(y, inner_ok) for y in e)
+            if not isinstance(e, tuple) or not e:
+                return False
+            if e[0] == "break":
+                mine = (e[1] is None and inner_ok) or (label is not None and e[1] == label)
+                return mine and e[2] is not None
+            if e[0] in ("loop", "while"):
+                return any(go(x, False) for x in e[1:])
+            return any(go(x, inner_ok) for x in e if isinstance(x, (tuple, list)))
+        return any(go(x, True) for x in loop[2:])
 
     def bind_pattern_types(self, pat, scrut):
         """declare the variables a pattern binds (types only) -- used by ty_of"""
@@ -858,6 +924,8 @@ class FnTr:
                 v = self.gensym("v")
                 some_arms, none_code = [], None
                 for pat, guard, body in arms:
+                    if pat[0] == "por" and all(q[0] == "pts" and q[1] == "Some" for q in pat[1]):
+                        pat = ("pts", "Some", [("por", [q[2][0] for q in pat[1]])])
                     if pat[0] == "pts" and pat[1] in ("Some", "Ok"):
                         some_arms.append((pat[2][0], guard, body))
                     elif (pat[0] == "ppath" and pat[1] == "None") or (pat[0] == "pts" and pat[1] == "Err"):
@@ -915,6 +983,8 @@ class FnTr:
         if kind == "loop" and self.diverges(e):
             return "(%s) ;;~ ifault Unreachable" % code
         if k is RET:
+            if self.ty_of(e) == "unit" and self.brk_ty != "unit":
+                return "(%s) ;;~ iret tt" % code
             return code
         if self.ty_of(e) == "unit":
             return "(%s) ;;~ " % code + k("tt", "unit")
@@ -1027,8 +1097,11 @@ class Gen:
         self.scanners = {"simd::match_uri_vectored": "s_uri",
                          "simd::match_header_value_vectored": "s_value",
                          "simd::match_header_name_vectored": "s_name"}
-        self.mut_types = {}
-        self.struct_fields = {}
+        self.mut_types = {("parse_headers_iter_uninit", "b"): "u8"}
+        self.let_types = {("parse_headers_iter_uninit", "skip"): "usize"}
+        self.struct_fields = {"HeaderParserConfig": {
+            "allow_spaces_after_header_name": "bool", "allow_obsolete_multiline_headers": "bool",
+            "allow_space_before_first_header_name": "bool", "ignore_invalid_headers": "bool"}}
         self.out = []
         self.errors = []
 
@@ -1047,18 +1120,71 @@ class Gen:
     def brk_default(self, ty):
         return default_of(ty)
 
+    SHRINK_STRUCT = ("struct ShrinkOnDrop < 'r1 , 'r2 , 'a > { headers : & 'r1 mut & 'r2 mut [ MaybeUninit < Header < 'a >> ] , "
+                     "num_headers : usize , }")
+    SHRINK_DROP = ("impl Drop for ShrinkOnDrop < '_ , '_ , '_ > { fn drop ( & mut self ) { let headers = mem :: take ( self . headers ) ; "
+                   "let headers = unsafe { headers . get_unchecked_mut ( . . self . num_headers ) } ; * self . headers = headers ; } }")
+
     def check_item(self, f, s):
         if s[1] == "macro_rules":
             return
-        raise TranslationError("%s: nested item %s %s" % (f.name, s[1], s[2]))
+        if f.name == "parse_headers_iter_uninit":
+            # the drop guard: on every exit `headers` is shrunk to `num_headers` slots.  Modelled at the
+            # call sites (Proofs/TieHeaders.v: run_headers) -- its text is pinned here.
+            if s[1] == "struct" and norm(s[3]) == self.SHRINK_STRUCT:
+                return
+            if s[1] == "impl" and norm(s[3]) == self.SHRINK_DROP:
+                return
+        raise TranslationError("%s: nested item %s %s changed or is outside the fragment" % (f.name, s[1], s[2]))
 
     def special_let(self, f, s, nxt):
         # `let mut bytes = Bytes::new(buf);` -- the function runs on cur_new buf
         if s[1][1] == "bytes" and s[3] is not None and s[3][0] == "call" and s[3][1] == ("path", "Bytes::new"):
             return nxt()
+        if f.name == "parse_headers_iter_uninit":
+            name, init = s[1][1], s[3]
+            if name == "autoshrink":
+                if init != ("struct", "ShrinkOnDrop", [("headers", ("path", "headers")), ("num_headers", ("lit", 0))]):
+                    raise TranslationError("autoshrink initialiser changed")
+                f.muts.append(("v_num_headers", "usize"))
+                f.scopes[-1]["autoshrink.num_headers"] = ("mut", "v_num_headers", "usize")
+                return f.setter("v_num_headers", "O") + " ;;~ " + nxt()
+            if name == "iter":
+                if init != ("mcall", ("field", ("path", "autoshrink"), "headers"), "iter_mut", []):
+                    raise TranslationError("iter initialiser changed")
+                f.muts.append(("v_iter", "usize"))
+                f.scopes[-1]["iter"] = ("iter", "v_iter", "iter")
+                return f.setter("v_iter", "O") + " ;;~ " + nxt()
+            if name == "uninit_header":
+                want = ("match", ("mcall", ("path", "iter"), "next", []),
+                        [(("pts", "Some", [("pbind", "header", False, None)]), None, ("path", "header")),
+                         (("ppath", "None"), None, ("break", "'headers", None))])
+                if init != want:
+                    raise TranslationError("slot iterator shape changed")
+                lab = f.find_label("'headers")
+                l = f.gensym("l")
+                f.scopes[-1]["uninit_header"] = ("imm", "uninit_header", "slotidx")
+                cn, arr = f.coqname, "v_arr"
+                return ("%s <~ iget ;; (if Nat.ltb (v_iter %s) (length (v_arr %s)) then "
+                        "(let uninit_header := (v_iter %s) in %s ;;~ %s) "
+                        "else ithrow (Brk %d %s))") % (
+                    l, l, l, l, f.setter("v_iter", "(S (v_iter %s))" % l), nxt(), lab, self.brk_default(f.brk_ty))
         return None
 
     def special_assign(self, f, s, nxt):
+        if f.name == "parse_headers_iter_uninit":
+            lhs, op, rhs = s[1], s[2], s[3]
+            if lhs == ("unop", "*", ("path", "uninit_header")) and op == "=":
+                if rhs[0] != "call" or rhs[1] != ("path", "MaybeUninit::new") or rhs[2][0][0] != "struct" \
+                        or rhs[2][0][1] != "Header" or [x for x, _ in rhs[2][0][2]] != ["name", "value"]:
+                    raise TranslationError("slot write shape changed")
+                n, v = f.pure(rhs[2][0][2][0][1]), f.pure(rhs[2][0][2][1][1])
+                if n is None or v is None or n[2] or v[2] or n[1] != "slice" or v[1] != "slice":
+                    raise TranslationError("slot write operands")
+                l = f.gensym("l")
+                return ("%s <~ iget ;; match write_slot uninit_header (SWritten %s %s) (v_arr %s) with "
+                        "Some a => %s | None => ifault WriteOOB end ;;~ %s") % (
+                    l, n[0], v[0], l, f.setter("v_arr", "a"), nxt())
         return None
 
     def special_match(self, f, e, k):
@@ -1089,13 +1215,15 @@ class Gen:
 
     # ------------------------------------------------------------ emit one function
     def emit_fn(self, rust_name, coqname, rty, nth=0, params=None, brk_ty="unit", self_fields=None,
-                extra_args="", top=False):
+                extra_args="", top=False, param_muts=()):
         hdr, body = rsparse.find_fn(self.lib, rust_name, nth)
         p = rsparse.RParser(body, self.macros)
         ast = p.parse_block_body(None)
         if not p.done():
             raise TranslationError("fn %s: trailing tokens" % rust_name)
         f = FnTr(self, rust_name, coqname, ast, rty, params or {}, brk_ty, self_fields)
+        for fl, ty in param_muts:
+            f.muts.append((fl, ty))
         code = f.translate()
         L = f.L()
         lines = []
@@ -1106,18 +1234,21 @@ class Gen:
                 args = " ".join("x" if j == i else "(%s_%s l)" % (coqname, g) for j, (g, _) in enumerate(f.muts))
                 lines.append("Definition set_%s_%s (x : %s) (l : %s) : %s := mk%s %s." % (
                     coqname, fl, coq_ty(ty), L, L, L, args))
-            init = "mk%s %s" % (L, " ".join(default_of(ty) for _, ty in f.muts))
+            pm = [fl for fl, _ in param_muts]
+            init = "mk%s %s" % (L, " ".join(fl if fl in pm else default_of(ty) for fl, ty in f.muts))
             code = re.sub(r"\((v_\w+|self_\w+) (l\d+)\)", lambda m: "(%s_%s %s)" % (coqname, m.group(1), m.group(2)), code)
         else:
             lines.append("Definition %s := unit." % L)
             init = "tt"
-        lines.append("Definition %s_init : %s := %s." % (coqname, L, init))
+        iargs = "".join(" (%s : %s)" % (fl, coq_ty(ty)) for fl, ty in param_muts)
+        lines.append("Definition %s_init%s : %s := %s." % (coqname, iargs, L, init))
         rc = coq_ty(rty) if rty != "tuple_usize_u64" else "(nat * N)"
         lines.append("Definition %s_body %s: I %s %s %s %s :=\n  %s." % (
             coqname, extra_args, L, rc, coq_ty(brk_ty), rc, wrap(code)))
-        lines.append("Definition %s %s: P %s := irun (%s_body %s) %s_init." % (
-            coqname, extra_args, rc, coqname, " ".join(a.split(":")[0].strip("( ") for a in extra_args.split(")") if a.strip()), coqname))
-        self.fns[rust_name] = coqname
+        if not param_muts:
+            lines.append("Definition %s %s: P %s := irun (%s_body %s) %s_init." % (
+                coqname, extra_args, rc, coqname, " ".join(a.split(":")[0].strip("( ") for a in extra_args.split(")") if a.strip()), coqname))
+            self.fns[rust_name] = coqname
         return "\n".join(lines) + "\n", f
 
 
@@ -1138,16 +1269,9 @@ HEADER = """(* GENERATED by translator/lib2v.py from /repo/src/lib.rs and /repo/
    One definition per Rust function, in the monad of Imp.v; macros are expanded from their
    macro_rules! definitions. *)
 From Coq Require Import List NArith Bool.
-From HV Require Import Cursor Scan Model Imp.
+From HV Require Import Cursor Scan Model Imp ImpLib.
 Import ListNotations.
 Local Open Scope imp_scope.
-
-Definition next_opt : P (option N) := fun c =>
-  match rest c with
-  | [] => Done None c
-  | b :: r => Done (Some b) (mkcur (pre c) (b :: tokrev c) r)
-  end.
-Definition from_utf8 (s : sl) : option sl := if utf8_valid (sl_bytes s) then Some s else None.
 
 """
 
@@ -1172,6 +1296,14 @@ def generate(lib_toks, mac_toks):
         except (TranslationError, IndexError, KeyError, TypeError, ValueError, AttributeError, AssertionError) as ex:
             g.errors.append("G9 %s: %s" % (rn, ex))
             out.append("(* fn %s: TRANSLATION FAILED: %s *)\nDefinition %s : P unit := fun _ => Fault Unreachable.\n" % (rn, str(ex).replace("*)", "* )"), cn))
+    try:
+        text, f = g.emit_fn("parse_headers_iter_uninit", "g_headers", "usize",
+                            params={"config": ("imm", "config", "struct:HeaderParserConfig")},
+                            brk_ty="slice", extra_args="(config : hcfg) ", param_muts=[("v_arr", "slots")])
+        out.append("(* fn parse_headers_iter_uninit *)\n" + text)
+    except (TranslationError, IndexError, KeyError, TypeError, ValueError, AttributeError, AssertionError) as ex:
+        g.errors.append("G9 parse_headers_iter_uninit: %s" % ex)
+        out.append("(* fn parse_headers_iter_uninit: TRANSLATION FAILED: %s *)\nDefinition g_headers_body : unit := tt.\n" % str(ex).replace("*)", "* )"))
     out.append("End WithEnv.\n")
     # parse_chunk_size: no environment
     out.append("Section Chunk.\nVariable dbg : bool.\nVariable fuel : nat.\n")
